@@ -21,7 +21,7 @@ from fractions import Fraction as F
 from ..tlc import MachineryError
 from ..util import pmap, split
 
-WORKERS = int(os.environ.get('VF_C13_WORKERS', '8'))     # TLC workers and pool processes
+WORKERS = int(os.environ.get('VF_C13_WORKERS', min(16, os.cpu_count() or 1)))     # TLC workers and pool processes
 BATCH = 40                                               # components per Problem in the check_partials pass
 
 # (label, check_partials keyword arguments, tolerance on approximated values)
@@ -424,53 +424,25 @@ def _report(ctx, s, v, fails):
         clause += ' (+%d more disagreements in this scenario)' % (len(fails) - 1)
     snippet = ('build: vf.drivers.c13.partials_single(scenario, expected) / totals_single(scenario, expected, mode); '
                './check C13 --replay <this file>')
+    info = {'clause': f0['clause'], 'observed': f0['observed'], 'fails': fails, 'spec_unc': v['unc']}
+    # tally by defect class (whether or not the class is listed in known_findings.json)
+    cls = [k for k, pred in PREDICATES.items() if pred(s, info)] or ['unclassified']
+    tally = ctx.extra.setdefault('disagreeing_scenarios_by_class', {})
+    for k in cls:
+        tally[k] = tally.get(k, 0) + 1
     return ctx.violation(s, v, {'first': f0['observed'], 'all': [[f.get('method'), f['clause'], f['observed']]
                                                                   for f in fails[:12]]},
-                         clause, snippet=snippet, info={'clause': f0['clause'], 'observed': f0['observed'],
-                                                         'fails': fails, 'spec_unc': v['unc']})
+                         clause, snippet=snippet, info=info)
 
 
-def _replay(ctx):
-    from ..util import quiet
-    quiet()
-    with open(ctx.replay) as fh:
-        rec = json.load(fh)
-    s, v = rec['scenario'], rec['expected']
-    os.chdir(ctx.work)
-    bad = oracle_disagreement(s, v)
-    if bad:
-        raise MachineryError('replay file: expectation is not the spec\'s: %s' % bad)
-    fails, rej = partials_single(s, v)
-    if rej:
-        raise MachineryError('replay: %s' % rej)
-    for mode in ('fwd', 'rev'):
-        f2, rej = totals_single(s, v, mode)
-        if rej:
-            raise MachineryError('replay: %s' % rej)
-        fails = fails + f2
-    ctx.impl = ctx.evaluations = 1
-    ctx.note_nontrivial(json.dumps(s, sort_keys=True))
-    ctx.sample({'scenario': s, 'disagreements': [[f.get('method'), f['clause']] for f in fails]})
-    ctx.rule = 'replay of one stored scenario'
-    for f in fails[:20]:
-        print('  %-40s %s\n      expected %s\n      observed %s' % (f.get('method'), f['clause'], f['expected'], f['observed']))
-    if fails:
-        _report(ctx, s, v, fails)
-    else:
-        print('replay: the stored scenario now agrees with the spec')
+def _bits(C, cells):
+    return sum(2 ** ((r - 1) * C + c - 1) for r, c in cells)
 
 
-def run(ctx):
-    ctx.register_predicates(PREDICATES)
-    if getattr(ctx, 'replay', None):
-        return _replay(ctx)
-    quick = ctx.tier == 'quick'
-    # shapes below 9 cells: everything.  quick: half of the 3x3 supports (rotating with the seed), a quarter of the
-    # (under-declared AND wrong values) combinations.  thorough: all of 3x3, an eighth of the 3x4 supports.
-    consts = dict(MaxC=3, SupMod9=2, SupMod12=1, CrossMod9=4, CrossMod12=1) if quick else \
-        dict(MaxC=4, SupMod9=1, SupMod12=8, CrossMod9=1, CrossMod12=4)
-    consts['SupRem'] = ctx.seed % 8
-    cfg = ctx.write_cfg('CheckPartials.cfg', '''CONSTANTS
+def _cfg(consts):
+    c = dict(RpR=1, RpC=1, RpKind='"dense"', RpAn='"correct"', RpPc='"full"', RpS=1, RpD=0, init='Init')
+    c.update(consts)
+    return '''CONSTANTS
   MaxR = 3
   MaxC = %(MaxC)d
   SupMod9 = %(SupMod9)d
@@ -478,7 +450,14 @@ def run(ctx):
   SupRem = %(SupRem)d
   CrossMod9 = %(CrossMod9)d
   CrossMod12 = %(CrossMod12)d
-INIT Init
+  RpR = %(RpR)d
+  RpC = %(RpC)d
+  RpKind = %(RpKind)s
+  RpAn = %(RpAn)s
+  RpPc = %(RpPc)s
+  RpS = %(RpS)d
+  RpD = %(RpD)d
+INIT %(init)s
 NEXT Next
 INVARIANT WellFormed
 INVARIANT UncoveredIffNotCovered
@@ -489,7 +468,67 @@ INVARIANT StorageIndependent
 INVARIANT AbsIsMaxNorm
 INVARIANT TotalsLaw
 INVARIANT Export
-''' % consts)
+''' % c
+
+
+def _replay(ctx):
+    """./check C13 --replay <file>: TLC evaluates the spec (laws and expected report) on exactly the stored scenario,
+    which is then run through check_partials (all methods) and check_totals (fwd and rev)."""
+    from ..util import quiet
+    quiet()
+    with open(ctx.replay) as fh:
+        rec = json.load(fh)
+    s = rec['scenario']
+    R, C = s['R'], s['C']
+    S = [(r, c) for r in range(1, R + 1) for c in range(1, C + 1) if s['A'][r - 1][c - 1] != 0]
+    P = {tuple(x) for x in s['pseq']}
+    D = [x for x in S if x not in P] if s['pc'] == 'under' else []
+    cfg = ctx.write_cfg('CheckPartials_replay.cfg', _cfg(dict(
+        MaxC=max(3, C), SupMod9=1, SupMod12=1, SupRem=0, CrossMod9=1, CrossMod12=1, RpR=R, RpC=C,
+        RpKind='"%s"' % s['kind'], RpAn='"%s"' % s['an'], RpPc='"%s"' % s['pc'], RpS=_bits(C, S), RpD=_bits(C, D),
+        init='InitReplay')))
+    r = ctx.tlc_check('mech/CheckPartials', cfg, timeout=600, workers=1)
+    exps = r.exports('EXP')
+    if len(exps) != 1 or exps[0]['s'] != s:
+        raise MachineryError('replay: the stored scenario is not one of the spec\'s (TLC gave %s)'
+                             % ([e['s'] for e in exps][:1],))
+    v = exps[0]['v']
+    os.chdir(ctx.work)
+    bad = oracle_disagreement(s, v)
+    if bad:
+        raise MachineryError('spec and independent reference disagree: %s' % bad)
+    fails, rej = partials_single(s, v)
+    if rej:
+        raise MachineryError('replay: %s' % rej)
+    for mode in ('fwd', 'rev'):
+        f2, rej = totals_single(s, v, mode)
+        if rej:
+            raise MachineryError('replay: %s' % rej)
+        fails = fails + f2
+    ctx.impl = 1
+    ctx.evaluations = len(METHODS) + 4 * len(TOT_METHODS)
+    ctx.note_nontrivial(json.dumps(s, sort_keys=True))
+    ctx.sample({'scenario': s, 'spec_report': v, 'disagreements': [[f.get('method'), f['clause']] for f in fails]})
+    ctx.rule = 'replay of one stored scenario (expectation recomputed by TLC)'
+    for f in fails[:20]:
+        print('  %-12s %s\n      expected %s\n      observed %s' % (f.get('method'), f['clause'], f['expected'], f['observed']))
+    if fails:
+        _report(ctx, s, v, fails)
+    else:
+        print('replay: the stored scenario agrees with the spec')
+
+
+def run(ctx):
+    ctx.register_predicates(PREDICATES)
+    if getattr(ctx, 'replay', None):
+        return _replay(ctx)
+    quick = ctx.tier == 'quick'
+    # shapes below 9 cells: everything.  quick: half of the 3x3 supports (rotating with the seed), a quarter of the
+    # (under-declared AND wrong values) combinations.  thorough: all of 3x3, a sixteenth of the 3x4 supports.
+    consts = dict(MaxC=3, SupMod9=2, SupMod12=1, CrossMod9=4, CrossMod12=1) if quick else \
+        dict(MaxC=4, SupMod9=1, SupMod12=16, CrossMod9=1, CrossMod12=4)
+    consts['SupRem'] = ctx.seed % 16
+    cfg = ctx.write_cfg('CheckPartials.cfg', _cfg(consts))
     marks = [('start', time.time())]
     r = ctx.tlc_check('mech/CheckPartials', cfg, timeout=3000, heap='12g', workers=WORKERS)
     marks.append(('tlc', time.time()))
@@ -567,7 +606,7 @@ INVARIANT Export
                 'nonzero or a nonzero error' % (
                     '3x3: the supports with SupHash mod 2 = seed mod 2, and every 4th combination of an under-declared '
                     'pattern with wrong values' if quick else
-                    '3x3: all; 3x4: the supports with SupHash mod 8 = seed mod 8, every 4th combination of an '
+                    '3x3: all; 3x4: the supports with SupHash mod 16 = seed mod 16, every 4th combination of an '
                     'under-declared pattern with wrong values'))
     ctx.assumptions = [
         'affine integer components only: the approximation is exact, so truncation/conditioning of FD is out of scope',
